@@ -65,20 +65,61 @@ def shard(args):
             part["evals"] += 1
         return accepted_cache[text]
 
+    lib_digits: dict[str, str | None] = {}
+
+    def lib_valid(valid):
+        """The reference-valid text if the library accepts it; otherwise the library's own spelling
+        of a valid IBAN for the same BBAN (the guarantee is about IBANs the library calls valid)."""
+        if accepted(valid):
+            return valid
+        body = valid[4:]
+        if body not in lib_digits:
+            k, v = lib.outcome(lambda: str(lib.IBAN.from_bban(country, body)))
+            part["evals"] += 1
+            lib_digits[body] = v if k == "ok" else None
+        return lib_digits[body]
+
     def try_case(kind_, valid, mutated, how):
-        if not accepted(valid):
+        own = lib_valid(valid)
+        if own is None:
             part.stat("skipped_base_not_accepted")
             return
+        if own != valid:
+            # same edit applied to the library's spelling (edits inside the check digits are
+            # re-derived for its digits)
+            part.stat("library_check_digits_used")
+            if mutated[4:] == valid[4:]:
+                return
+            mutated = own[:4] + mutated[4:]
+            valid = own
         part.count(mutated)
+        pc = None
+        if partner_pre is not None and mutated[4:] != valid[4:]:
+            # sequence form: the mistyped BBAN text goes through the library first as the *valid*
+            # IBAN of a partner country (same BBAN length, structure admits the text)
+            pc = next((p for p in partner_pre if reg.countries()[p].matches(mutated[4:])), None)
+            if pc is not None:
+                lib.iban_parse(pc + ri.check_digits(pc, mutated[4:]) + mutated[4:])
+                part["evals"] += 1
+                part.stat("after_partner_country")
         k, v = lib.iban_parse(mutated)
         part.stat(kind_)
         if k == "ok":
-            part.violation(f"{kind_}-undetected", {"kind": "c03", "valid": valid, "mutated": mutated,
-                                                    "how": how}, "reject", (k, v))
+            if pc is None:
+                part.violation(f"{kind_}-undetected", {"kind": "c03", "valid": valid, "mutated": mutated,
+                                                        "how": how}, "reject", (k, v))
+            else:
+                part.violation(f"{kind_}-undetected-after-same-BBAN-text-in-partner-country",
+                               {"kind": "c03seq", "partner": pc, "valid": valid, "mutated": mutated,
+                                "how": how}, "reject", (k, v))
+
+    partner_pre = None
 
     for f in dict.fromkeys(fillers):
         base = bases.bban(c, f)
         L = len(base)
+        # partner sequences for one filler (the collision needs equal check digits: ~1 typo in 97)
+        partner_pre = bases.partners(country)[:3] if f == fillers[0] else None
         # ---- substitutions and transpositions inside the BBAN
         for p in range(L):
             for alpha in kinds(cl[p]):
@@ -138,6 +179,9 @@ def shard(args):
 
 
 def replay(case: dict) -> dict:
+    if case.get("kind") == "c03seq":
+        pc, m = case["partner"], case["mutated"]
+        lib.iban_parse(pc + ri.check_digits(pc, m[4:]) + m[4:])
     verdict, obs = judge_mutation(case["valid"], case["mutated"])
     return {"ok": verdict != "bad", "observed": obs, "expected": "reject"}
 
